@@ -210,7 +210,7 @@ CLAIMS = {
         "satisfy - id, author, author+kind, each tag value alone / with author / with kind, a time window - whichever of the seven plans serves it "
         "(self_findable, from find_events completeness); the tag-index entry count is a function of what remains indexed and is zero when nothing is. The four "
         "entry counts = number of retrievable events are decided by correspondence after every step (stats on the real store), as is the self-filter family "
-        "per event seen vs the specification. keys_from_source / index_padding_from_source: the key builders of all six query indexes as lmdb/mod.rs spells them on this run produce the model's byte keys.",
+        "per event seen vs the specification. keys_from_source / index_padding_from_source: the key builders of all six query indexes as lmdb/mod.rs spells them on this run produce the model's byte keys. index_walk_from_source: Lmdb::index and Lmdb::deindex, translated statement by statement on every run, put / delete exactly the (table, key) pairs of the model's eventKeys.",
    note=PROOF_NOTE + 'Modelled, not verified: LMDB (ordered maps, snapshot reads inside a write transaction, atomic commit), the mmap-append event map; the seven index tables are modelled as functions of the set of indexed events with range scans as filter+key-order sort. ' + "PARTIAL: the model derives all index tables from the set of indexed events; that the real index/deindex pairs keep the tables in that relation is exactly what the per-step stats and self-filter comparison checks, not a theorem about the Rust.",
    technique="Lean 4 proof (corollaries of the find_events loop invariant) + differential correspondence on entry counts and the self-filter family",
    design="6/C17"),
